@@ -3,12 +3,19 @@ EXTENDS RtmpSession, TLC, Json
 OneShape   == {[type |-> 8, sid |-> 1, ts |-> 0]}
 AgreeSizes == {1, 127, 128, 129, 4096, 2147483647}
 TsClasses  == {0, 16777214, 16777215, 16777216, 2147483647}
-HeaderShapes == {[type |-> t, sid |-> s, ts |-> x] : t \in {4, 5, 6, 8, 9, 18, 20}, s \in {0, 1, 16777217}, x \in TsClasses}
+SidClasses == {0, 1, 16777217}
+\* every message type RTMP 1.0 defines (Set Chunk Size, type 1, is ScsMsg): protocol control 2..6, 7, audio, video,
+\* AMF3/AMF0 data, shared object, command, aggregate
+AllTypes   == {2, 3, 4, 5, 6, 7, 8, 9, 15, 16, 17, 18, 19, 20, 22}
+HeaderShapes == {[type |-> t, sid |-> s, ts |-> x] : t \in AllTypes, s \in SidClasses, x \in TsClasses}
+\* the ctl family: a protocol-control message of every type on every stream-id class, before and behind long messages
+CtlShapes  == {[type |-> t, sid |-> s, ts |-> 0] : t \in 2..6, s \in SidClasses} \cup OneShape
+CtlSizes   == {1, 127, 4096}
 PairShapes == {[type |-> t, sid |-> 1, ts |-> x] : t \in {8, 9}, x \in TsClasses}
 BidirSizes == {1, 128, 4096}
 
 \* MC with HsOrder = "free": the history variables are left out of the fingerprint, every interleaving is still taken
-NoHistory == <<hsw, hsr, put, took, rdoff, out, inn, wire, sent, got, desync>>
+NoHistory == <<hsw, hsr, put, took, rdoff, out, inn, wire, held, sent, got, desync>>
 
 \* GEN with HsOrder = "free": one schedule per class of schedules that differ only in the order of neighbouring
 \* steps of different endpoints that do not see each other (two writes, or two handshake reads): of those, the
